@@ -5,46 +5,75 @@ From Ford Require Import Base.Str Lex.Quote Lex.Reader Lex.ReaderSpec Lex.Reader
 
 (* The converter turns every fixed-form file of the modelled layout — labels in columns 1-5, '0' or
    blank in column 6 of an initial line, any other non-blank character in column 6 of continuation
-   lines, an inline '!' comment (ordinary or documentation) after the statement text of any line,
-   continued ones included, '!' inside character literals, a '!' in column 6 as continuation mark,
-   C/c/*/! comment lines, comment lines whose first non-blank character is a '!' in any other
-   column than column 6, and whitespace-only lines of any width anywhere (also between a line and its continuation line, several in a row),
-   any number of statements and continuation lines, every line within 72 columns, line breaks
-   outside character literals — line for line into the free-form file [free_of f], whatever the
-   length-limit setting. *)
+   lines ('!' included), an inline '!' comment (ordinary or documentation) after the statement text
+   of any line, continued ones included, '!' inside character literals, C/c/*/! comment lines,
+   comment lines whose first non-blank character is a '!' in any other column than column 6, and
+   whitespace-only lines of any width anywhere (also between a line and its continuation line,
+   several in a row), any number of statements and continuation lines, line breaks outside
+   character literals; line width ([wf_item ll], ll = the length-limit setting): with the limit on,
+   every line within 72 columns, or filled up to column 72 and followed by any text in columns 73+
+   (sequence numbers, the rest of an inline comment that runs over column 72); with the limit
+   off, lines of any width — line for line into the free-form file [free_of f], in which the text
+   of columns 73+ stands as an ordinary comment "! ..." from column 73 on where the line has no
+   inline comment, and is left out where it has one (so it never becomes part of a documentation
+   comment, and a documentation comment that runs over column 72 is kept up to column 72). *)
 Theorem C14_fixed_as_free : forall ll f,
-  Forall wf_item f -> Forall closed_item f ->
+  Forall (wf_item ll) f -> Forall closed_item f ->
   map chomp (convert_to_free ll (render_fixed f)) = render_file (free_of f).
 Proof. exact fixed_as_free. Qed.
 Print Assumptions C14_fixed_as_free.
 
 (* ... hence the statements read from it are those of that free-form file: the ';'-separated
-   parts of the joined statement texts (composition with C02_file_statements). *)
+   parts of the joined statement texts (composition with C02_file_statements) ... *)
 Theorem C14_fixed_statements : forall ll f,
-  Forall wf_item f -> Forall closed_item f -> Forall item_ok (free_of f) ->
+  Forall (wf_item ll) f -> Forall closed_item f -> Forall item_ok (free_of f) ->
   read_all default_cfg (map chomp (convert_to_free ll (render_fixed f)))
   = ROk (flat_map stmts_of (file_texts (free_of f))).
 Proof. exact fixed_statements. Qed.
 Print Assumptions C14_fixed_statements.
 
-(* [free_of f] is the free-form equivalent by the standard's rules ([std_free_of]: a literal that
-   runs over a line break is joined exactly, column 72 to column 7) when no literal does. *)
+(* ... which are the statements of the file cut at column 72: the text of columns 73+ does not
+   reach any statement. *)
+Theorem C14_seq_not_in_statements : forall ll f,
+  Forall (wf_item ll) f -> Forall closed_item f -> Forall item_ok (free_of f) ->
+  read_all default_cfg (map chomp (convert_to_free ll (render_fixed f)))
+  = ROk (flat_map stmts_of (file_texts (free_of (cut_file f)))).
+Proof. exact fixed_statements_cut. Qed.
+Print Assumptions C14_seq_not_in_statements.
+
+(* The free-form equivalent by the standard's rules ([std_free_of]: with the line length limited,
+   columns 73+ are no part of the file; a literal that runs over a line break is joined exactly,
+   column 72 to column 7) is [free_of] of the file cut at column 72 when no literal does. *)
 Theorem C14_std_equivalent : forall f,
-  Forall closed_item f -> std_free_of f = free_of f.
+  Forall closed_item f -> std_free_of f = free_of (cut_file f).
 Proof. exact std_free_closed. Qed.
 Print Assumptions C14_std_equivalent.
 
-(* Full statement over all modelled layouts, character literals continued across lines included:
-   FALSE of the code as it is. *)
+(* Full statement over all modelled layouts, character literals continued across lines and text
+   in columns 73+ included (readings compared up to blanks at the end of a line): FALSE of the
+   code as it is. *)
 Definition C14_statement : Prop := statement_C14.
 
-(* It holds wherever every line break falls outside character literals. *)
+(* It holds - with equal readings, blanks included - wherever every line break falls outside
+   character literals and no line has text in columns 73+ (with the limit off: lines of any
+   width) ... *)
 Theorem C14_partial : forall ll f,
-  Forall wf_item f -> Forall closed_item f ->
+  Forall (wf_item ll) f -> Forall closed_item f -> Forall no_seq_item f ->
   read_all default_cfg (map chomp (convert_to_free ll (render_fixed f)))
   = read_all default_cfg (render_file (std_free_of f)).
 Proof. exact partial_C14. Qed.
 Print Assumptions C14_partial.
+
+(* ... and with text in columns 73+, in the class of the reader theorem C02 ([item_ok] of both
+   layouts: ordinary comments only; for documentation comments on such lines C14_fixed_as_free
+   gives the converted lines). *)
+Theorem C14_partial_seq : forall ll f,
+  Forall (wf_item ll) f -> Forall closed_item f ->
+  Forall item_ok (free_of f) -> Forall item_ok (free_of (cut_file f)) ->
+  read_all default_cfg (map chomp (convert_to_free ll (render_fixed f)))
+  = read_all default_cfg (render_file (std_free_of f)).
+Proof. exact partial_C14_seq. Qed.
+Print Assumptions C14_partial_seq.
 
 (* A character literal continued across lines gains a blank at the break and loses its blanks up
    to column 72 (witness: "      s = 'ab" / "     &cd'"). *)
